@@ -119,6 +119,9 @@ func init() {
 	})
 }
 
+// c11BigCase: scenario shared-pointers (i % 9 == 0), Jobs 8, GOMAXPROCS 16.
+const c11BigCase = 144
+
 type c11Key struct{ l, r string }
 
 func c11Result(comps gedcom.IndividualComparisons) []string {
@@ -148,6 +151,11 @@ func c11Run(c *fw.Ctx, i int) {
 	n := r.Range(1, 30)
 	if r.Chance(1, 3) {
 		n = r.Range(1, 8)
+	}
+	// one pair per run is large: more certain matches than the channels of the
+	// pipeline hold (1,000)
+	if i == c11BigCase {
+		n = 1050
 	}
 	base := gen.NewFG(r, gen.FGOpts{People: n, MultiNames: true, MissingBits: true, NoLiving: true})
 	var right *gen.FG
@@ -267,9 +275,10 @@ func c11Run(c *fw.Ctx, i int) {
 	so.Jobs = 1
 	seq := c11Result(sl.Compare(sr, so))
 
-	// ties? (full score matrix as the pipeline computes it)
-	ties := false
-	{
+	// ties? (full score matrix as the pipeline computes it; not for the large
+	// pair, where a million pairs would have to be scored: no differential there)
+	ties := i == c11BigCase
+	if !ties {
 		tl, tr, _ := decode()
 		seen := map[string]bool{}
 		uids := map[string]int{}
@@ -304,7 +313,12 @@ func c11Run(c *fw.Ctx, i int) {
 		}
 	}
 
-	for rep := 0; rep < 3; rep++ {
+	reps := 3
+	if i == c11BigCase {
+		reps = 1
+		c.Count("large-pairs", 1)
+	}
+	for rep := 0; rep < reps; rep++ {
 		l, rr, ok := decode()
 		if !ok {
 			return
@@ -315,16 +329,17 @@ func c11Run(c *fw.Ctx, i int) {
 		o.SimilarityOptions = sim
 		o.Jobs = jobs
 		var comps gedcom.IndividualComparisons
-		done := make(chan struct{})
-		go func() {
-			defer close(done)
-			comps = l.Compare(rr, o)
-		}()
-		select {
-		case <-done:
-		case <-time.After(5 * time.Minute):
-			c.Inconclusive("compare-watchdog")
+		// Compare must return: whether it is stuck is read off the goroutines
+		// (every goroutine of the library parked), not off the clock
+		pi, parked := fw.Guard(func() { comps = l.Compare(rr, o) })
+		if pi != nil {
 			gedcom.VerifSetHook(nil)
+			c.Violation("compare-panics:"+pi.Sig(), "IndividualNodes.Compare panicked: "+pi.Msg, payload)
+			return
+		}
+		if parked != "" {
+			gedcom.VerifSetHook(nil)
+			c.Violation("compare-does-not-return:deadlock@"+fw.InnermostRepoFrame(parked), fmt.Sprintf("IndividualNodes.Compare (jobs=%d, %d x %d individuals) never returns: every goroutine of the library is parked\n%s", jobs, len(l), len(rr), clip(parked, 2500)), payload)
 			return
 		}
 		gedcom.VerifSetHook(nil)
@@ -445,7 +460,7 @@ func c11Run(c *fw.Ctx, i int) {
 	}
 
 	// ---- the real CLI built with the race detector ----
-	if bin := os.Getenv("VERIF_GEDCOM_BIN"); bin != "" && i%4 == 0 && len(base.People) > 0 && len(right.People) > 0 {
+	if bin := os.Getenv("VERIF_GEDCOM_BIN"); bin != "" && i%4 == 0 && i != c11BigCase && len(base.People) > 0 && len(right.People) > 0 {
 		dir := os.Getenv("VERIF_SCRATCH")
 		if dir == "" {
 			dir = os.TempDir()
